@@ -13,6 +13,13 @@ ASSUMPTIONS = ["fragments are slices of one content function (the property's own
                "Bytes::advance/split_to/split_off and VecDeque behave as documented"]
 
 
+MANIFEST = {
+    "text": "Machine-checked Coq theorems (Properties/C08.v) over an executable model of RecvBuf: for every content function and every operation list (fragments that are slices of the content, reads of any size, try_next) the invariant holds, every read returns exactly the arrived contiguous prefix cut to the room, the concatenation of all reads is the content prefix, coverage is exactly the union of the fragments, and the fresh-byte reports add up to the highest offset seen. The model is tied to the Rust by running the extracted model and the real RecvBuf on the same op lists every run (exhaustive small scope + random), and the property is also evaluated directly on the implementation's observations.",
+    "note": "Trusted: Coq kernel, extraction (ExtrOcamlBasic only), OCaml driver, Rust harness, Python generators/oracle. The model restates recv's binary-search loop as structural recursion over the sorted segment list; their equality is checked by correspondence, not proved. Bytes/VecDeque internals are not modelled.",
+    "technique": "Coq proof (induction over operation lists, refinement to a covered-set abstraction) + differential correspondence model/implementation",
+}
+
+
 def content(i):
     return (i * 131 + (i // 256) * 17 + 7) % 256
 
